@@ -19,6 +19,7 @@ type verifRemote struct {
 	inserted   map[string]int
 	sideEffect int
 	servers    []string
+	recordCalls int
 	misrouted  int // shard requests addressed to a server that is not the shard's rendezvous owner
 	deletedRecords   []string
 	deletedShardDirs []string
@@ -60,8 +61,26 @@ func (r *verifRemote) handle(remoteFn string, args Destinationer, reply any) err
 		}
 		r.inserted[a.ShardId] += len(a.Points)
 		return nil
+	case "ClusterNode.RPCCreateCollection":
+		a := args.(*RPCCreateCollectionRequest)
+		r.addressed(a.Collection.UserId, args)
+		r.recordCalls++
+		return nil
+	case "ClusterNode.RPCListCollections":
+		a := args.(*RPCListCollectionsRequest)
+		r.addressed(a.UserId, args)
+		r.recordCalls++
+		return nil
+	case "ClusterNode.RPCGetCollection":
+		a, rep := args.(*RPCGetCollectionRequest), reply.(*RPCGetCollectionResponse)
+		r.addressed(a.UserId, args)
+		r.recordCalls++
+		rep.Collection = models.Collection{UserId: a.UserId, Id: a.CollectionId}
+		return nil
 	case "ClusterNode.RPCDeleteCollection":
 		a := args.(*RPCDeleteCollectionRequest)
+		r.addressed(a.Collection.UserId, args)
+		r.recordCalls++
 		r.deletedRecords = append(r.deletedRecords, a.Collection.UserId+"/"+a.Collection.Id)
 		return nil
 	case "ClusterNode.RPCDeleteCollectionShards":
@@ -106,6 +125,20 @@ func remoteName(base string, servers []string) string {
 	for j := 0; ; j++ {
 		name := base + "-" + string(rune('a'+j%26)) + string(rune('a'+(j/26)%26))
 		if RendezvousHash(name, servers, 1)[0] == "other" {
+			return name
+		}
+	}
+}
+
+// ownedName: as remoteName for an arbitrary owner
+func ownedName(base string, servers []string, owner string) string {
+	if vsymbolic() {
+		vassume(RendezvousHash(base, servers, 1)[0] == owner)
+		return base
+	}
+	for j := 0; ; j++ {
+		name := base + string(rune('a'+j%26)) + string(rune('a'+(j/26)%26))
+		if RendezvousHash(name, servers, 1)[0] == owner {
 			return name
 		}
 	}
@@ -181,4 +214,40 @@ func VerifInsertPointsQuota() {
 	for id, n := range r.inserted {
 		vassert("no-shard-exceeds-the-per-shard-point-limit", r.counts[id]+int64(n) <= c.cfg.MaxShardPointCount)
 	}
+}
+
+// C13: every operation on a user's collection records - create, list, get, delete - is addressed
+// to the rendezvous owner of the user id (whatever the collection is called), from any node.
+func VerifCollectionRecordRouting() {
+	servers := []string{"self", "other", "third"}[:vparam("SERVERS", 2)]
+	c := &ClusterNode{Servers: servers, MyHostname: "self"}
+	r := &verifRemote{counts: map[string]int64{}, infoFails: map[string]bool{}, insertFail: map[string]bool{}, inserted: map[string]int{}, servers: servers}
+	verifRemoteScript = r
+	verifNodes = map[string]*ClusterNode{}
+	defer func() { verifRemoteScript, verifNodes = nil, nil }()
+	user := remoteName("carol", servers)
+	// the collection name plays no part in routing: names that themselves hash to this node or to the other one
+	colId := "orders"
+	if nondetBool() {
+		colId = ownedName("orders", servers, "self")
+	} else {
+		colId = ownedName("orders", servers, "other")
+	}
+	col := models.Collection{UserId: user, Id: colId}
+	switch nondetIntRange(0, 3) {
+	case 0:
+		vassert("create-ok", c.CreateCollection(col) == nil)
+	case 1:
+		_, err := c.ListCollections(user)
+		vassert("list-ok", err == nil)
+	case 2:
+		got, err := c.GetCollection(user, colId)
+		vassert("get-ok", err == nil && got.UserId == user && got.Id == colId)
+	case 3:
+		_, err := c.DeleteCollection(col)
+		vassert("delete-ok", err == nil)
+	}
+	vcover("reached")
+	vassert("record-operation-reaches-the-remote-owner", r.recordCalls == 1)
+	vassert("every-record-operation-is-addressed-to-the-owner-of-the-user-id", r.misrouted == 0)
 }
